@@ -83,5 +83,31 @@ mutual
     | t, x :: xs => agreeTy t x && agreeElems t xs
 end
 
+/-- the decoder's counter guard (generators.py container_len._decode, `array_guard = 65536`): the
+    raw counter (element count plus shift) of every bound array is at most 65536.  Values beyond it
+    encode but are refused by decode (known finding D49). -/
+def guardLimit : Nat := 65536
+
+mutual
+  def guardTy : Ty → Val → Bool
+    | t, .present x => guardTy t x
+    | t, .arr xs => guardElems t xs
+    | .struct _ ms, .struct vs => guardFields ms ms vs
+    | .union _ arms, .union idx v =>
+      (match arms[idx]? with
+       | some (.mk _ _ t) => guardTy t v
+       | none => true)
+    | _, _ => true
+  def guardFields (all : List Member) : List Member → List Val → Bool
+    | .mk _ t k :: r, v :: vs =>
+      (match k.sizer? with
+       | some s => decide (v.len + sizerShift s all ≤ guardLimit)
+       | none => true) && guardTy t v && guardFields all r vs
+    | _, _ => true
+  def guardElems : Ty → List Val → Bool
+    | _, [] => true
+    | t, x :: xs => guardTy t x && guardElems t xs
+end
+
 end WF
 end Prophy
